@@ -1,7 +1,75 @@
-"""C35 placeholder runner (filled below)"""
-from ..gfi import distribution
+"""C35 - masked constraint values act as conditional constraints.
+
+Decided: the two Mask arms of generate / update in Distribution (arm polarity decided by dependence: the arm bound to flag=True uses the constraint value and its
+log density, the other arm samples / keeps the old value with weight 0 / re-scored), the backward constraint old_choices.mask(flag); ExactDensity.assess unwraps a
+masked value; Choice.build's concrete-flag table (False -> empty, True -> unwrapped, traced -> kept); Indexed.get_inner_map propagates the index match as a mask
+(scalar and array addresses); Choice.filter(flag) masks the value; ChoiceMap.mask(flag) == filter(flag).
+Not decided: elementwise behaviour of vectorised masks inside JAX (vmap of the above).
+"""
+from ..gfi import distribution, vmap
 from ..gfi.common import run_for
+from ..rules import is_call, is_mcall, mentions
+from ..terms import C, Evaluator, G, P, is_t, mk_proj, show, subterms
+
+CM = "core/generative/choice_map.py"
+SELF = P("self")
+
+
+def is_mask_build(t, v=None, f=None):
+    ok = is_call(t, "build") and is_t(t[1], "attr") and is_t(t[1][1], "global") and t[1][1][1].split(".")[-1] == "Mask" and len(t[2]) == 2
+    return ok and (v is None or t[2][0] == v) and (f is None or t[2][1] == f)
+
+
+def chm_mask_rules(chk, prog):
+    ev = Evaluator(prog)
+    ch = prog.cls("Choice", CM)
+    W = lambda c, m: f"{c.module.rel}:{c.methods[m].lineno}"
+    r = ev.eval_fn(ch.methods["build"], ch.module, ch)
+    V = P("v")
+    PF = ("call", ("attr", V, "primal_flag"), (), ())
+    got = {}
+    for conds, ret in r.returns:
+        pos = [t for t, p in conds if p]
+        if ("is", PF, C(False)) in pos:
+            got["F"] = ret
+        elif ("is", PF, C(True)) in pos:
+            got["T"] = ret
+        elif any(is_t(t, "isinst") and t[2] == "Mask" for t in pos):
+            got["traced"] = ret
+    okc = is_call(got.get("F"), "empty") and got.get("T") == ("ctor", "Choice", (("attr", V, "value"),), ()) and got.get("traced") == ("ctor", "Choice", (V,), ())
+    chk.require(okc, "CHM-CONCRETE", "Choice.build", "masked value with a concrete flag", derived={k: show(v) for k, v in got.items()}.__str__(), expected="False -> empty map; True -> Choice(value); traced -> Choice(mask)", where=W(ch, "build"))
+    r = ev.eval_fn(ch.methods["filter"], ch.module, ch)
+    got = {}
+    for conds, ret in r.returns:
+        pos = [t for t, p in conds if p]
+        if any(is_t(t, "isinst") and t[2] == "Selection" for t in pos):
+            got["sel-" + ("T" if any(is_mcall(t, "check") for t in pos) else "F")] = ret
+        else:
+            got["flag"] = ret
+    okf = is_call(got.get("flag"), "build") and is_mask_build(got["flag"][2][0], ("attr", SELF, "v"), P("selection")) and got.get("sel-T") == SELF and is_call(got.get("sel-F"), "empty")
+    chk.require(okf, "CHM-MASK", "Choice.filter", "flag -> masked value; selection -> keep iff selected", derived={k: show(v)[:80] for k, v in got.items()}.__str__(), expected="Choice.build(Mask.build(self.v, flag)); self if selection.check() else empty", where=W(ch, "filter"))
+    cm = prog.cls("ChoiceMap", CM)
+    r = ev.eval_fn(cm.methods["mask"], cm.module, cm)
+    chk.require(r.ret == ("call", ("attr", SELF, "filter"), (P("flag"),), ()), "CHM-MASK", "ChoiceMap.mask", "mask(flag) == filter(flag)", derived=show(r.ret), expected="self.filter(flag)", where=W(cm, "mask"))
+    ix = prog.cls("Indexed", CM)
+    r = ev.eval_fn(ix.methods["get_inner_map"], ix.module, ix)
+    ADDR, SA, SC = P("addr"), ("attr", SELF, "addr"), ("attr", SELF, "c")
+    eq = ("cmp", "==", SA, ADDR)
+    scal = [ret for conds, ret in r.returns if is_mcall(ret, "mask")]
+    arr = [ret for conds, ret in r.returns if is_t(ret, "treemap")]
+    oks = len(scal) == 1 and scal[0] == ("call", ("attr", SC, "mask"), (eq,), ())
+    chk.require(oks, "CHM-INDEX", "Indexed.get_inner_map/scalar", "scalar index: inner map masked by (self.addr == addr)", derived=show(scal[0]) if scal else "none", expected="self.c.mask(self.addr == addr)", where=W(ix, "get_inner_map"))
+    oka = len(arr) == 1 and arr[0][2] == (SC,) and is_mask_build(arr[0][1]) and mentions(arr[0][1][2][1], eq) and is_t(arr[0][1][2][0], "index") and arr[0][1][2][0][1] == ("leaf", SC)
+    if oka:
+        idx_v, idx_f = arr[0][1][2][0][2], arr[0][1][2][1]
+        oka = is_t(idx_f, "index") and idx_f[1] == eq and idx_f[2] == idx_v
+    chk.require(oka, "CHM-INDEX", "Indexed.get_inner_map/array", "array index: the matched position's value, masked by whether it matched", derived=show(arr[0])[:200] if arr else "none", expected="tree_map(v -> Mask.build(v[i], check[i]), self.c) with i the position where self.addr == addr", where=W(ix, "get_inner_map"))
+    stat = [ret for conds, ret in r.returns if is_call(ret, "empty")]
+    chk.require(len(stat) == 1, "CHM-INDEX", "Indexed.get_inner_map/static", "a static component under an index level finds nothing", derived=f"{len(stat)} empty arm(s)", expected="ChoiceMap.empty()", where=W(ix, "get_inner_map"))
 
 
 def run(chk, prog):
-    n, obs = run_for(chk, prog, "C35", [distribution.analyse])
+    n, obs = run_for(chk, prog, "C35", [distribution.analyse, vmap.analyse])
+    chk.floor("obligations tagged C35", n, 12)
+    chm_mask_rules(chk, prog)
+    chk.explanation = "arm polarity and weights of the masked-constraint arms of generate / update, mask propagation through Choice / Indexed, concrete-flag tables"
